@@ -1451,7 +1451,8 @@ public:
     }
     void tstb(SttMod a, Imm16 b) {
         u16 value = RegToBus16(a.GetName());
-        regs.fz = (value >> b.Unsigned16()) & 1;
+        // only the low 4 bits of the second word select the bit (the upper 12 are unused)
+        regs.fz = (value >> (b.Unsigned16() & 0xF)) & 1;
     }
 
     void and_(Ab a, Ab b, Ax c) {
